@@ -18,16 +18,27 @@ struct QObs {
     cli: Option<RObs>,
 }
 
-fn cli_eval(ledger: &std::path::Path, db: Option<&std::path::Path>, from: usize, to: usize, date: i32) -> RObs {
+/// `now`: the --now option (None = left to its default, today's date); the evaluation date
+/// is --date, so no answer may depend on it
+fn eval_args(ledger: &std::path::Path, db: Option<&std::path::Path>, from: usize, to: &str, date: i32, now: Option<i32>) -> Vec<String> {
     let d = iso_date(date);
     let lp = ledger.to_string_lossy().to_string();
-    let mut args: Vec<String> = vec!["primitive".into(), "eval".into(), "--date".into(), d, "-f".into(), lp, "-X".into(), COMMODITIES[to].into()];
+    let mut args: Vec<String> = vec!["primitive".into(), "eval".into(), "--date".into(), d, "-f".into(), lp, "-X".into(), to.into()];
+    if let Some(n) = now {
+        args.push("--now".into());
+        args.push(iso_date(n));
+    }
     if let Some(p) = db {
         args.push("--price-db".into());
         args.push(p.to_string_lossy().to_string());
     }
     args.push("1".into());
     args.push(COMMODITIES[from].into());
+    args
+}
+
+fn cli_eval(ledger: &std::path::Path, db: Option<&std::path::Path>, from: usize, to: usize, date: i32, now: Option<i32>) -> RObs {
+    let args = eval_args(ledger, db, from, COMMODITIES[to], date, now);
     let refs: Vec<&str> = args.iter().map(|s| s.as_str()).collect();
     let r = cli::run(&refs);
     if r.panicked {
@@ -149,12 +160,54 @@ fn run_case(sh: &mut Shards, st: &mut Stats, scratch: &cli::Scratch, r: &mut Rng
         Err(e) => (false, Vec::new(), e),
     };
     // the CLI leg on a sample of the queries (each run re-reads the files)
+    let mut unknown: Vec<URun> = Vec::new();
+    let pdates = price_dates(&evs);
+    // --now of a command run: left out, before the evaluation date (a day, or before every
+    // price), the evaluation date, after it
+    let pick_now = |r: &mut Rng, st: &mut Stats, date: i32, with_db: bool| -> Option<i32> {
+        let now = match r.below(6) {
+            0 => None,
+            1 | 2 => Some(date - 1 - r.below(3) as i32),
+            3 => Some(pdates.iter().next().copied().unwrap_or(date) - 1 - r.below(5) as i32),
+            4 => Some(date),
+            _ => Some(date + 1 + r.below(40) as i32),
+        };
+        st.count(match now {
+            None => "leg:cli_now_default",
+            Some(n) if n < date && with_db => "leg:cli_now_before_date_with_price_db",
+            Some(n) if n < date => "leg:cli_now_before_date",
+            Some(n) if n == date => "leg:cli_now_on_date",
+            Some(_) => "leg:cli_now_after_date",
+        });
+        if let Some(n) = now {
+            if with_db && evs.iter().any(|e| e.db && e.date > n && e.date <= date) {
+                st.count("leg:cli_price_db_line_between_now_and_date");
+            }
+        }
+        now
+    };
     if is_loaded && !qs.is_empty() {
         for _ in 0..cli_budget {
             let k = r.below(qs.len() as u64) as usize;
             if qs[k].cli.is_none() {
-                qs[k].cli = Some(cli_eval(&ledger_path, db_path.as_deref(), qs[k].from, qs[k].to, qs[k].date));
+                let now = pick_now(r, st, qs[k].date, db_path.is_some());
+                qs[k].cli = Some(cli_eval(&ledger_path, db_path.as_deref(), qs[k].from, qs[k].to, qs[k].date, now));
             }
+        }
+        // targets the ledger and the price DB do not know
+        for _ in 0..2 {
+            let k = r.below(qs.len() as u64) as usize;
+            let (kind, name) = unknown_target(r, &known);
+            let now = pick_now(r, st, qs[k].date, db_path.is_some());
+            let args = eval_args(&ledger_path, db_path.as_deref(), qs[k].from, &name, qs[k].date, now);
+            st.count(&format!("unknown_target:{}", kind));
+            let u = run_unknown(kind, args, &name);
+            st.count(match &u.obs {
+                UObs::NotFound => "unknown_target:result:commodity_not_found",
+                UObs::Report => "unknown_target:result:value_printed",
+                UObs::Other(_) => "unknown_target:result:other_failure",
+            });
+            unknown.push(u);
         }
     }
     // measured input distribution
@@ -225,12 +278,13 @@ fn run_case(sh: &mut Shards, st: &mut Stats, scratch: &cli::Scratch, r: &mut Rng
         )
     }));
     let term = format!(
-        "C {} {} {} {} {}",
+        "CU {} {} {} {} {} {}",
         coq::list(case.entries.iter().map(entry_term)),
         db_term(&case.db),
         coq::bool_(case.exact),
         coq::bool_(is_loaded),
-        qterms
+        qterms,
+        coq::list(unknown.iter().map(|u| uobs_term(&u.obs).to_string()))
     );
     let rep = json!({
         "property": "C09",
@@ -241,6 +295,7 @@ fn run_case(sh: &mut Shards, st: &mut Stats, scratch: &cli::Scratch, r: &mut Rng
         "queries": qs.iter().map(|q| json!({
             "convert": format!("1 {}", COMMODITIES[q.from]), "into": COMMODITIES[q.to], "date": iso_date(q.date),
             "api": robs_json(&q.api), "cli": q.cli.as_ref().map(robs_json)})).collect::<Vec<_>>(),
+        "unknown_targets": unknown.iter().map(urun_json).collect::<Vec<_>>(),
         "reproduce": "write `ledger` to case.ledger and `price_db` to prices.db, then: okane primitive eval --date <date> -f case.ledger -X <into> --price-db prices.db 1 <commodity>",
     });
     if st.samples.len() < 4 && !qs.is_empty() {
@@ -260,7 +315,7 @@ pub fn run(o: &Opts) {
     let mut st = Stats::new();
     let header = "From Coq Require Import List NArith ZArith QArith Qcanon.\nFrom Okv Require Import Base.Maps Base.Dec Model.Amount Model.Book Model.PriceDb Run.LedgerCase Run.PriceCase Run.Classify_C09.\nImport ListNotations.\nOpen Scope N_scope.";
     let mut sh = Shards::new(&o.out, o.shards, header);
-    st.rule = "2-5 commodities, 1-8 dated prices from ledger costs (@, @@), lot prices ({}, {{}}), lot+cost, zero-quantity quotes, implied exchanges and price-DB `P` lines (a real file under .build/, passed as ProcessOptions.price_db_path / --price-db; zero, negative and self-mention lines included), graphs: random pairs with cycles and parallel records, chains, stars, disconnected islands and unpriced commodities; same-day records; file order differs from date order. Queries: `1 A` into B for every ordered pair as of up to 5 dates before / on / between / after the price dates, through Ledger::eval and (a sample) `okane primitive eval` in-process. One evaluation = one query; non-trivial = A <> B and ((>= 2 prices and the pair is not directly priced) or the query date is a price date); distinct by (ledger text, price-DB text, pair, date)".into();
+    st.rule = "2-5 commodities, 1-8 dated prices from ledger costs (@, @@), lot prices ({}, {{}}), lot+cost, zero-quantity quotes, implied exchanges and price-DB `P` lines (a real file under .build/, passed as ProcessOptions.price_db_path / --price-db; zero, negative and self-mention lines included), graphs: random pairs with cycles and parallel records, chains, stars, disconnected islands and unpriced commodities; same-day records; file order differs from date order. Queries: `1 A` into B for every ordered pair as of up to 5 dates before / on / between / after the price dates, through Ledger::eval and (a sample) `okane primitive eval` in-process, the command with --now left out, one to three days before --date, before every price, on --date or after it (the evaluation date is --date: no answer may depend on --now; leg:cli_now_* counts, and how often a price-DB line lies between --now and --date), and two runs per ledger with a -X target neither ledger nor price DB mention, or a known one in another case of letters: must fail with `commodity T not found`. One evaluation = one query; non-trivial = A <> B and ((>= 2 prices and the pair is not directly priced) or the query date is a price date); distinct by (ledger text, price-DB text, pair, date)".into();
     st.rule = format!("{}; {}", st.rule, TEXT_SHAPES_RULE);
     st.assumptions.push("exact stream: every rate and quantity is a product of powers of 2 and 5, so reciprocals and chained products are exact Decimals and answers are compared exactly; arbitrary-rate stream (counted separately): compared with relative tolerance 1e-18".into());
     st.assumptions.push("where several optimal chains with different rates exist (counted as query:genuine_tie) the implementation's choice depends on HashMap iteration order; any optimal rate is accepted".into());
